@@ -41,7 +41,6 @@ ASSUMPTIONS = [
     "crc32(str(tuple(key[:2]))) is recomputed by the harness from pandas' own reading of the file it wrote (a harmless change of the hash function breaks this correspondence)",
     "rng.choice sub-sampling and rng.shuffle are oracles (contracts: subset of the complement without duplicates, of the planned size)",
     "scores: integer-valued features through a transparent estimator, so (s-t)/(t-d) is one correctly rounded division; compared exactly",
-    "a feature column must not be called 'fold' (known finding predict:feature-column-named-fold: _predict overwrites and drops it)",
     "the block size of make_train_sets (5,000,000 rows) is a local constant: it is exercised by calling make_train_sets directly, not through brew",
 ]
 TRUSTED_EXTRA = ["scikit-learn clone/deepcopy of the recording scaler and estimator", "joblib thread scheduling (any completion order)",
@@ -285,11 +284,11 @@ def gen(ctx):
                           "tags": ["brew", "same-path-pair", "dir=shared", f"folds={folds}", "files=1"]})
     # a feature column whose name is the one _predict uses internally
     rng = ctx.sub("fold-name")
-    for k in range(3 if ctx.thorough else 1):
+    for k in range(6 if ctx.thorough else 3):
         f = gen_table(rng, rng.randint(40, 80), ("expmass",), 0, fold_feature=True)
         cases.append({"fn": "brew", "files": [f], "folds": 3, "seed": k, "test_fdr": "1.0", "workers": 1, "subset_max_train": None,
                       "chunks": {}, "fmt": "tsv", "suffix": ".pin", "row_group": None, "est_mode": "decision", "workdir": "fresh",
-                      "tags": ["brew", "feature-named-fold", "finding:" + KEY_FOLD_NAME]})
+                      "tags": ["brew", "feature-named-fold"]})
     # degenerate: fewer distinct spectra than folds / one big spectrum
     rng = ctx.sub("degenerate")
     for k in range(6 if not ctx.thorough else 20):
@@ -884,8 +883,7 @@ def oracle(c, i):
 
 
 def finding_key(c, m, i):
-    if i is not None and i[0] == "err" and str(i[1]).startswith("KeyError") and any("fold" in f["data"] for f in c["files"]):
-        return KEY_FOLD_NAME
+    # (predict:feature-column-named-fold is repaired in /repo, 43a3586: a feature column called 'fold' is an ordinary case)
     if i is not None and i[0] == "err" and i[1] == "IndexError" and all(_key_names(f) == ["ScanNr"] for f in c["files"]):
         return KEY_ONECOL
     return None
